@@ -91,6 +91,36 @@ def mutate_ir(rng, ir):
     return ir
 
 
+# prose with characters that are special to some layer the text passes through (`%` for the help text of argparse,
+# braces for str.format, backslashes for string literals, a tab inside a line for whatever re-indents docstrings): the phrase
+# goes before the final full stop of the description of one parameter (all of them carry defaults) or of the summary
+PROSE_SPECIAL = OrderedDict((
+    ("percent", "e.g., 20% of it"),
+    ("percent-twice", "between 5% and 95%"),
+    ("braces", "fills the {name} and {0} placeholders"),
+    ("backslash", "a path such as C:\\data\\new"),
+    ("tab", "columns id\tlabel"),
+))
+
+
+def apply_prose_special(ir, spec):
+    """spec: None | {"token": key of PROSE_SPECIAL, "where": "param" | "summary", "index": which parameter}"""
+    if not spec:
+        return ir
+    phrase = PROSE_SPECIAL[spec["token"]]
+
+    def add(doc):
+        doc = doc or ""
+        return (doc[:-1] + ", " + phrase + ".") if doc.endswith(".") else (doc + " " + phrase)
+    names = list(ir["params"])
+    if spec.get("where") == "summary" or not names:
+        ir["doc"] = add(ir["doc"])
+    else:
+        n = names[spec.get("index", 0) % len(names)]
+        ir["params"][n]["doc"] = add(ir["params"][n]["doc"])
+    return ir
+
+
 # ------------------------------------------------------------------ emitting definitions with the real emitters
 def emit_def(kind, ir, name, function_type="static"):
     m = impl()
@@ -154,6 +184,38 @@ HELPERS = [
 def surroundings(rng, n=None):
     n = rng.randint(0, 4) if n is None else n
     return [rng.choice(HELPERS) for _ in range(n)]
+
+
+# sibling definitions whose DOCSTRINGS hold characters that are special to some layer: a tab in the middle of a line (a sample
+# of a tab-separated file, a two-column table), `%`, braces, backslashes.  The docstrings are indented to their bodies (what
+# black re-indents otherwise is the recorded finding other-docstring-reformatted).  A list of its own: HELPERS keeps its
+# length, so the surroundings drawn for a seed stay what they were
+SPECIAL_HELPERS = [
+    'def load_labels(path):\n    """\n    Read the labels file, one record per line, e.g.:\n\n    id\tlabel\tsplit\n    17\tcat\ttrain\n'
+    '    18\tdog\ttest\n    """\n    return path',
+    'class Table(object):\n    def header(self):\n        """name\tvalue"""\n        return \'name\'\n\n    def row(self, k, v):\n'
+    '        """\n        One row: key\tvalue (tab separated).\n        """\n        return (k, v)',
+    'def ratio(done, total):\n    """Share that is done in %, e.g., 20% of {total} items."""\n    return \'%d%%\' % (100 * done // total)',
+    'def win_path(name):\n    """Join name onto C:\\\\data\\\\new, backslashes kept."""\n    return \'C:\\\\data\\\\\' + name',
+    'class Report(object):\n    """\n    Columns of the report:\n\n    metric\tunit\n    loss\t%\n    """\n\n    width: int = 2',
+]
+# a definition that carries the simple name of the target BELOW the top level (a method, a nested class, a nested function,
+# a class attribute holding a lambda is not one): it is not the named definition, whose place is the top level of the module
+INNER_SAME_NAMED = ["member", "member", "nested-function", "member-of-nested-class"]   # member: a method / a nested class
+
+
+def inner_same_named(kind, short, form):
+    """module-level statement holding a definition named `short` one or two levels down"""
+    if kind == "class":
+        inner = 'class %s(object):\n    """\n    Settings of the registry\n\n    :cvar verbose: chatty"""\n\n    verbose: bool = True' % short
+    else:
+        inner = 'def %s(self, epochs=3):\n    """\n    Run the loop\n\n    :param epochs: number of epochs\n    """\n    return epochs' % short
+    if form == "nested-function":
+        inner = inner.replace("(self, ", "(")
+        return "def make_%s():\n%s\n\n    return %s" % (short.lower(), indent_block(inner), short)
+    if form == "member-of-nested-class":
+        return "class Registry(object):\n    class Entry(object):\n%s\n\n    entry = Entry" % indent_block(inner, 8)
+    return "class Registry(object):\n    marker = 1\n\n%s\n\n    def describe(self):\n        return self.marker" % indent_block(inner)
 
 
 def indent_block(src, n=4):
